@@ -115,7 +115,7 @@ func (F Facts) Resolve(v ssa.Value) ssa.Value {
 	}
 	return v
 }
-func (F Facts) Nil(v ssa.Value) Tri  { return evalNil(v, F.f, F.as, 0) }
+func (F Facts) Nil(v ssa.Value) Tri { return evalNil(v, F.f, F.as, 0) }
 
 // nonNilCallees are library constructors whose result is never nil.
 var nonNilCallees = map[string]bool{
